@@ -4,7 +4,6 @@ package repl
 
 import (
 	"fmt"
-	"io"
 	"strings"
 
 	"github.com/ohler55/slip"
@@ -133,7 +132,7 @@ type Help struct {
 // Call the the function with the arguments provided.
 func (f *Help) Call(s *slip.Scope, args slip.List, depth int) slip.Object {
 	slip.CheckArgCount(s, depth, f, args, 0, 1)
-	w := s.Get(stdOutput).(io.Writer)
+	w := s.WriterVar(stdOutput, depth)
 	text := helpTop
 	if 0 < len(args) {
 		var topic string
